@@ -325,4 +325,28 @@ CHECKS = {
              "thorough": {"checks": 15000, "shards": 16, "timeout": 3400}},
         ],
     },
+    "C15": {
+        "level": "exploration",
+        "level_text": ("Decoder ring: every record reader of the control protocol, the control header, the legacy manifest and file "
+                       "receivers are fed (through a stream that ends with EOF) every truncation of every valid record, every valid record "
+                       "with hostile length constants (0xFFFFFFFF, 0x7FFFFFFF, 0x80000000 ...) spliced in at every offset, and rapid-"
+                       "generated garbage / valid prefix + garbage / edited record sequences; oracle: no panic, returns, and allocates at "
+                       "most 256 KiB + 16 x input bytes (runtime.MemStats). Endpoint ring: a scripted peer plays an honest session up to a "
+                       "drawn stage and then deviates (22 sender-side and 13 receiver-side deviations: garbage, unknown types, duplicate or "
+                       "inconsistent records, absurd counts and lengths, bad CRC, truncated records, early End) against the real "
+                       "RecvManifestMultiStream / SendManifestMultiStream, then ends its input; cases run in batches inside a child "
+                       "process so that a panic in a background goroutine is attributed to its case. Oracle: no crash, the endpoint "
+                       "returns within 2.5 s after the input ended, allocation <= 16 MiB + 16 x bytes exchanged."),
+        "level_note": "Memory is measured per case, not proven bounded; the allocation bounds are far above what honest sessions of the same size need (calibrated) and far below the 1 GiB-4 GiB a trusted length prefix costs.",
+        "technique": "fuzz-style generated and enumerated malformed input (truncation/splice enumeration + rapid) against decoders, and stage-aware hostile-peer scripts against the real endpoints, with crash / termination / allocation oracles",
+        "rule": ("decoders: (decoder, bytes) cases; staged: (side, stage, deviation, argument, close mode) cases drawn from a seeded PRNG. "
+                 "Non-trivial = input of >= 5 bytes (decoders) / every staged case (each gets past the magic and at least one "
+                 "length-prefixed field or deviates at a later stage); distinct by input prefix / case description."),
+        "assumptions": ["allocation measured with runtime.MemStats.TotalAlloc in a process that runs one case at a time"],
+        "units": [
+            {"name": "transfer", "pkg": T, "run": "^TestVerifC15Decoders|^TestVerifC15Staged",
+             "quick": {"checks": 3000, "shards": 4, "timeout": 900, "env": {"VERIF_C15_CASES": 200}},
+             "thorough": {"checks": 40000, "shards": 16, "timeout": 3400, "env": {"VERIF_C15_CASES": 3000}}},
+        ],
+    },
 }
